@@ -301,7 +301,9 @@ pub fn gen_ledger(r: &mut Rng, cfg: &GenCfg) -> Ledger {
                 }
                 pos[ti] -= q;
                 // now and then a worthless disposal: nil consideration, the sale still has fees
-                let price = if r.chance(1, 25) { Decimal::ZERO } else { gen_price(r) };
+                // a further fill of the same sale (same day, same security, same unit price, its own fees) now and then
+                let fill_of = out.iter().rev().find(|t| t.date == date && t.ticker == tk && t.kind == Kind::Sell).map(|t| t.b);
+                let price = match fill_of { Some(p) if r.chance(1, 2) => p, _ => if r.chance(1, 25) { Decimal::ZERO } else { gen_price(r) } };
                 out.push(GTx::new(date, tk, Kind::Sell, q, price, gen_fee(r, cfg.fees)));
             }
             Kind::Split => {
